@@ -483,6 +483,8 @@ class BaseClient:
         s = s[i:].lstrip()
         info["modify"] = self.parse_ls_date(s[:12].strip())
         s = s[12:].strip()
+        if not s:
+            raise ValueError("no name column")
         if info["type"] == "link":
             i = s.rindex(" -> ")
             link_dst = s[i + 4 :]
@@ -525,7 +527,7 @@ class BaseClient:
         # whitespace, but if we were to try to detect such a condition
         # we would have to make strong assumptions about the input format
         filename = line[next_space:].lstrip()
-        if filename == "." or filename == "..":
+        if not filename or filename == "." or filename == "..":
             raise ValueError
         return pathlib.PurePosixPath(filename), info
 
@@ -573,7 +575,9 @@ class BaseClient:
         else:
             s = b
         line = s.rstrip()
-        facts_found, _, name = line.partition(" ")
+        facts_found, sep, name = line.partition(" ")
+        if not sep or not name:
+            raise ValueError("no pathname in MLSx line", line)
         entry = {}
         for fact in facts_found[:-1].split(";"):
             key, _, value = fact.partition("=")
@@ -820,6 +824,8 @@ class Client(BaseClient):
                             raise StopAsyncIteration
 
                     name, info = cls.parse_line(line)
+                    if "type" not in info:
+                        raise ValueError("no type fact in listing line", line)
                     # skipping . and .. as these are symlinks in Unix
                     if str(name) in (".", ".."):
                         continue
